@@ -242,7 +242,10 @@ pub fn variants(property: &str, _tier: Tier) -> Vec<Variant> {
             Variant { name: "merkle-mutation", weight: 3, max_events: 100_000, run: c15_pure },
         ],
         "C11" => vec![Variant { name: "dissem-erasure", weight: 1, max_events: 100_000, run: c11 }],
-        "C12" => vec![Variant { name: "dissem-binding", weight: 1, max_events: 100_000, run: c12 }],
+        "C12" => vec![
+            Variant { name: "dissem-binding", weight: 7, max_events: 100_000, run: c12 },
+            Variant { name: "repair", weight: 1, max_events: 150_000, run: c14 },
+        ],
         "C13" => vec![Variant { name: "dissem-blockstore", weight: 1, max_events: 100_000, run: c13 }],
         "C16" => vec![Variant { name: "dissem-routing", weight: 1, max_events: 400_000, run: c16 }],
         "C17" => vec![Variant { name: "sampler-callers", weight: 1, max_events: 400_000, run: c17 }],
@@ -295,11 +298,11 @@ pub fn plan(property: &str, tier: Tier) -> Option<Plan> {
             "pool-votes and pool-certs generators with recover_from_standstill() triggered after sampled prefixes of the history (including the empty prefix = fresh pool); the bundle is checked for the finality proof, all later certificates and own votes, validity of every element, and a fresh pool fed only the bundle must reach the same finalized slot and the same ready parents for the following window; non-trivial = recovery was triggered; distinct = history fingerprint"),
         "C11" => (if q { 20_000 } else { 1_000_000 }, if q { 60 } else { 1200 }, "exploration",
             "one case = one slice (shredder variant, boundary-biased payload length over every residue of the padding scheme incl. 0, max and max+1, with/without parent) shredded by the leader and sent over a lossy, reordering, duplicating datagram network to a receiver that stores shreds by index and calls deshred on every arrival; deshred must succeed iff >=32 distinct shreds arrived, reproduce the slice and all 64 shreds bit-for-bit, each regenerated shred validating under the signed root, and leave the array untouched on error; non-trivial = at least one shred arrived; distinct = (shredder, length, parent, arrivals kept)"),
-        "C12" => (if q { 6_000 } else { 300_000 }, if q { 60 } else { 1200 }, "exploration",
-            "one case = an honest leader's block with a tamperer on the path applying structured mutations (every header field, shred index, payload byte/length, proof element/length, signature, data/coding tag, cross-slot/slice replay, splice) with and without a cached commitment at the receiver, followed by the genuine shreds; or a Byzantine leader signing two commitments for one slice in both arrival orders; the receiver is the message loop's validation path on a real BlockstoreImpl; non-trivial = at least one tampered shred was delivered; distinct = set of mutation classes delivered x mode"),
+        "C12" => (if q { 8_000 } else { 300_000 }, if q { 60 } else { 1200 }, "exploration",
+            "two variants; (repair, 1 of 8 runs) the repair world of C14 with peers that alter fields the leader's signature does not cover (data/coding tag flipped on authentic shreds) or answer wrongly: a correct leader whose only signed material is the block being repaired must never be reported as misbehaving by the requester; (dissem-binding) one case = an honest leader's block with a tamperer on the path applying structured mutations (every header field, shred index, payload byte/length, proof element/length, signature, data/coding tag, cross-slot/slice replay, splice) with and without a cached commitment at the receiver, followed by the genuine shreds; or a Byzantine leader signing two commitments for one slice in both arrival orders; the receiver is the message loop's validation path on a real BlockstoreImpl; non-trivial = at least one tampered shred was delivered; distinct = set of mutation classes delivered x mode"),
         "C13" => (if q { 4_000 } else { 200_000 }, if q { 60 } else { 1200 }, "exploration",
             "one case = one block shape (1..K slices, empty to full slices, optional optimistic-handover parent switch, or one of eight malformations signed by the leader) delivered to a real BlockstoreImpl with >=32 shreds of every slice in a sampled order with duplicates and conflicting material placed anywhere; exactly-once events, hash/parent, serving of every shred/root/proof, fast path equality, and exactly one InvalidBlock for malformed blocks are checked; distinct = (malformation, slices, ingest outcome histogram)"),
-        "C16" => (if q { 600 } else { 30_000 }, if q { 60 } else { 1200 }, "exploration",
+        "C16" => (if q { 6_000 } else { 120_000 }, if q { 60 } else { 1200 }, "exploration",
             "one case = 2..40 independently constructed disseminator instances (Trivial, Rotor::new, Rotor::new_fa1, Turbine with fanout 1..n or 200; constructed at different simulated times in a sampled order, caches cold/warm, sampled call order) on a loss-free network with arbitrary delays; a leader sends every shred of a block; every other validator must receive each shred, exactly once under Turbine/Trivial and through at most one relay broadcast under Rotor; non-trivial = n >= 3; distinct = (disseminator, n, stakes, slot)"),
         "C14" => (if q { 1_500 } else { 60_000 }, if q { 120 } else { 1500 }, "exploration",
             "one case = one real Repair::repair_loop repairing one 1..K-slice block (honest or Byzantine leader, optionally with dissemination data already present) from 2-7 peers that are real RepairRequestHandlers with or without the block, silent nodes, or liars (wrong variant, aliased/wrong indices, wrong root, mutated proofs, other block's material, alternative last-flag signing, duplicates, unsolicited answers, delays) over a network with loss/duplication/stragglers until a drawn stabilisation time; checked: announced/stored block hashes to the requested id, no panic, dissemination data untouched, repair completes within 30*REPAIR_TIMEOUT after stabilisation while honest peers holding the block carry >= 30% of the peers' stake, and an honest responder answers every request shape with verifying data or a NACK; non-trivial = a liar or an honest holder took part; distinct = (roles, slices, liar fault kinds fired, outcome)"),
